@@ -163,7 +163,11 @@ class DurativeActionToProcesses(engines.engine.Engine, CompilerMixin):
     def resulting_problem_kind(
         problem_kind: ProblemKind, compilation_kind: Optional[CompilationKind] = None
     ) -> ProblemKind:
-        new_kind = problem_kind.clone()
+        # processes and events exist only from version 3 of the problem kind on:
+        # bring an older kind to the latest version before adding them
+        new_kind = problem_kind.union(
+            ProblemKind(version=LATEST_PROBLEM_KIND_VERSION)
+        )
         new_kind.unset_time("INTERMEDIATE_CONDITIONS_AND_EFFECTS")
         if new_kind.has_duration_inequalities():
             new_kind.unset_time("DURATION_INEQUALITIES")
